@@ -6,6 +6,7 @@ in terminal states.  DESIGN.md 3.3."""
 import json, os, re, shutil, subprocess, sys, time, collections
 
 TLA_JAR = "/opt/veriftools/tla/tla2tools.jar"
+GHOST_KEYS = ("bad", "done", "taint3", "taint4", "taint5")
 CM_JAR = "/opt/veriftools/tla/CommunityModules-deps.jar"
 
 
@@ -203,7 +204,9 @@ def write_schedule(path, g, tours, init_text, obs_fmt=fmt_obs, init_of=None):
                     line = "S %d %s %s\n" % (actor, label, obs_fmt(obs))
                     cache[e] = line
                 out.append(line)
-            out.append("E\n")
+            last = g.edges[t[-1]][4] if t else {}
+            taints = [k for k in GHOST_KEYS if k.startswith("taint") and isinstance(last, dict) and last.get(k)]
+            out.append("E %s\n" % " ".join(taints) if taints else "E\n")
             f.write("".join(out))
     return sum(len(t) for t in tours)
 
@@ -231,7 +234,6 @@ def run_tlc_sim(spec, cfg, num, depth, workers=4, seed=1, timeout=1800, cwd=None
     return out, {"rc": p.returncode, "log": log[-60:]}
 
 
-GHOST_KEYS = ("bad", "done", "taint3", "taint4", "taint5")
 
 
 def fmt_obs_noghost(obs):
@@ -283,8 +285,19 @@ def analyse(g):
             if key not in found or d < found[key][0]:
                 found[key] = (d, ei)
     out = []
+
+    def finish_locals(path):
+        # the specification takes local steps (labels ending in _l) eagerly: a counterexample ends after them
+        cur = g.edges[path[-1]][1] if path else None
+        k = 0
+        while cur is not None and k < 64:
+            nxt = [e for e in g.out[cur] if g.edges[e][3].endswith("_l") and g.edges[e][2] != 0]
+            if not nxt:
+                break
+            path.append(nxt[0]); cur = g.edges[nxt[0]][1]; k += 1
+        return path
     for (kind, name, taints), (d, ei) in found.items():
-        out.append(dict(kind="inv", name=name, taints=list(taints), path=path_to_node(g, parent, g.edges[ei][0]) + [ei], label=g.edges[ei][3]))
+        out.append(dict(kind="inv", name=name, taints=list(taints), path=finish_locals(path_to_node(g, parent, g.edges[ei][0]) + [ei]), label=g.edges[ei][3]))
     stuck = {}
     for v in range(len(g.out)):
         if not g.out[v] and v in indeg_obs:
